@@ -106,6 +106,15 @@ def write_evidence(prop, tier, level, coverage, assumptions, wall, violations, e
     os.replace(tmp, os.path.join(VERIF, 'evidence', '%s.json' % prop))
 
 
+def evaluate(prop, facts_dir, tier='quick'):
+    """run the rules of one property over a given fact set; returns the rule context."""
+    prog = Program(facts_dir)
+    mod = importlib.import_module('ripcheck.rules.%s' % prop.lower())
+    ctx = Ctx(prog, prop, tier)
+    mod.run(ctx)
+    return ctx
+
+
 def run_property(prop, tier='quick', facts_dir=None, quiet=False, write=True):
     """returns exit code. 0 held, 1 violation, 2 check error (fail closed)."""
     t0 = time.time()
@@ -127,8 +136,9 @@ def run_property(prop, tier='quick', facts_dir=None, quiet=False, write=True):
         ctx = Ctx(prog, prop, tier)
         mod.run(ctx)
         extra_thorough = None
-        if tier == 'thorough' and hasattr(mod, 'thorough'):
-            extra_thorough = mod.thorough(ctx)
+        if tier == 'thorough':
+            from . import thorough as _th
+            extra_thorough = _th.run(prop, ctx, say)
     except CheckError as e:
         say('CHECK-ERROR property=%s %s' % (prop, str(e).replace('\n', '\n    ')))
         if write:
@@ -212,6 +222,16 @@ def run_property(prop, tier='quick', facts_dir=None, quiet=False, write=True):
     }
     if tier == 'thorough' and extra_thorough:
         coverage['thorough'] = extra_thorough
+        if extra_thorough.get('broken'):
+            say('CHECK-ERROR property=%s thorough tier: %s' % (prop, extra_thorough['broken']))
+            if write:
+                write_evidence(prop, tier, 'other', coverage, ASSUMPTIONS, time.time() - t0, nviol, dict(info, check_error=extra_thorough['broken']))
+            return 2
+        if extra_thorough.get('violations'):
+            for v in extra_thorough['violations']:
+                nviol += 1
+                say('  %s' % v['detail'])
+                say('VIOLATION property=%s replay=%s' % (prop, v['replay']))
     if write:
         write_evidence(prop, tier, 'other', coverage, ASSUMPTIONS, time.time() - t0, nviol, info)
     if not quiet:
